@@ -373,6 +373,8 @@ def build_unit_text(unit, xdir, specs, report):
     head.append('#include "inv.h"')
     if 'WITH_EXT_MEM' in defs:
         head.append('#include "ext_mem.h"')
+    if 'WITH_EXT_CMP' in defs:
+        head.append('#include "ext_cmp.h"')
     head.append('uint64_t g_N, g_N2; struct vsnap pre_self, pre_o; struct gsnap pre_g; _Bool g_alias; uint64_t g_src, g_pos, g_pos2, g_cnt; E *pre_p1, *pre_p2; void *g_other; int g_int0;')
     nhead = sum(h.count('\n') + 1 for h in head)
     body = '\n'.join(head) + '\n' + text + '\n#include "l0_globals.c"\n' + 'void harness(void) {\n%s\n  l0_havoc();\n  %s\n}\n' % (decls, call)
@@ -445,6 +447,8 @@ def run_unit(unit, xdir, specs, report, variant='main', extra_defs=(), log=print
             gfiles += ['l0_sets.h', 'l0_aset.h', 'inv_sets.h', 'inv_sets_gen.h']
         if 'WITH_EXT_MEM' in unit.get('defs', {}):
             gfiles += ['ext_mem.h']
+        if 'WITH_EXT_CMP' in unit.get('defs', {}):
+            gfiles += ['ext_cmp.h']
     ghost_fp = sha(*[open(os.path.join(GHOST, f), 'rb').read() for f in gfiles])
     flags = list(cflags) + list(extra_defs)
     key = sha(body, ghost_fp, ' '.join(flags), ' '.join(CBMC_FLAGS), unit['target'], ' '.join(unit.get('replace', [])), variant, str(unit.get('bounded', '')))[:24]
